@@ -2147,7 +2147,7 @@ Proof.
   pose proof (FR_mono H' (H + S n * (k + 3)) k ltac:(unfold H'; cbn [Nat.mul]; lia)) as M1.
   pose proof (FR_mono _ _ k HT) as M2.
   assert (n * FR (H' + n * (k + 3)) k <= n * FR (H + S n * (k + 3)) k) by (apply Nat.mul_le_mono_l; exact M2).
-  cbn [Nat.mul]. fold n. Show. lia.
+  cbn [Nat.mul] in *. fold n. lia.
 Qed.
 
 (** The measure of any well-formed thread state, bounded by a closed expression in the
@@ -2167,7 +2167,7 @@ Proof.
   pose proof (FR_mono H' (headn sh + S n * (k + 3)) k ltac:(unfold H'; cbn [Nat.mul]; lia)) as M1.
   pose proof (FR_mono (H' + n * (k + 3)) (headn sh + S n * (k + 3)) k ltac:(unfold H'; cbn [Nat.mul]; lia)) as M2.
   assert (n * FR (H' + n * (k + 3)) k <= n * FR (headn sh + S n * (k + 3)) k) by (apply Nat.mul_le_mono_l; exact M2).
-  cbn [Nat.mul]. lia.
+  cbn [Nat.mul] in *. lia.
 Qed.
 
 Theorem solo_bound_closed cf t xs s k :
@@ -2178,8 +2178,19 @@ Proof.
   apply mu_B_any. apply (w_thr s W t Hrun).
 Qed.
 
+(** Every reachable state satisfies the invariant, so the bounds hold from any state a
+    schedule can lead to, whatever the other threads were doing when they were frozen. *)
+Corollary solo_bound_reachable cf inits progs sched t xs k :
+  let s := fst (run cf (init_state inits progs) sched) in
+  spurs cf t xs s <= k -> solo_steps cf t xs s <= mu_of s t k.
+Proof.
+  intros s Hsp. apply solo_bound; [|exact Hsp].
+  apply (run_WF2 cf sched _ (WF2_init inits progs)).
+Qed.
+
 Print Assumptions exec_dec.
 Print Assumptions solo_bound.
 Print Assumptions solo_bound_closed.
 Print Assumptions writer_solo_bound.
 Print Assumptions solo_completes.
+Print Assumptions solo_bound_reachable.
